@@ -26,7 +26,8 @@ ORACLES = [co.check_spy]
 def generate(seed, stratum, tier):
   rng = random.Random(seed)
   host = rng.choice(['instrumented', 'queued', 'queued', 'ao'])
-  kw = {'nstates': rng.randrange(2, 10)}
+  # p_swallow: states that answer a signal with IGNORED themselves (masking it from their ancestors)
+  kw = {'nstates': rng.randrange(2, 10), 'p_swallow': rng.choice([0.0, 0.0, 0.15, 0.3])}
   ops, weights = ('ev',), None
   if host != 'instrumented':
     kw.update({'fx_rate': rng.choice([0.0, 0.3]), 'fx_ops': ('post_fifo', 'post_lifo', 'defer', 'recall', 'scribble') + (('clear_spy',) if rng.random() < 0.3 else ())})
